@@ -269,7 +269,7 @@ def c07_batches(seed, tier):
     batches = []
     n_walks, length = (12, 200) if tier == "quick" else (80, 600)
     for dzn, dzd in (DZS_QUICK if tier == "quick" else DZS_FULL[:5]):
-        for variant in ("signed", "centred", "mixed"):
+        for variant in ("signed", "centred", "mixed", "unsigned"):
             for flip in (False, True):
                 ax = {}
                 info = {}
@@ -279,6 +279,11 @@ def c07_batches(seed, tier):
                 if variant in ("centred", "mixed"):
                     ax["ABS_Y"] = axis("cc", cc=3, ccNeg=4, off=2, offNeg=2, bidi=True, centre=True, flip=not flip, dzn=dzn, dzd=dzd)
                     info["ABS_Y"] = {"min": 0, "max": 255}
+                if variant == "unsigned":      # unsigned, no dead-zone at the centre: a branch of its own in the code
+                    ax["ABS_Z"] = axis("cc", cc=9, ccNeg=10, off=0, offNeg=4, bidi=True, flip=flip, dzn=dzn, dzd=dzd)
+                    info["ABS_Z"] = {"min": 0, "max": 255}
+                    ax["ABS_RZ"] = axis("cc", cc=11, ccNeg=12, off=1, offNeg=1, bidi=True, flip=not flip, dzn=0, dzd=1)
+                    info["ABS_RZ"] = {"min": 0, "max": 1023}
                 if variant == "signed":
                     ax["ABS_RX"] = axis("cc", cc=5, ccNeg=6, off=1, offNeg=1, bidi=True, dzn=dzn, dzd=dzd, dzsrc="handler")
                     info["ABS_RX"] = {"min": -32768, "max": 32767}
@@ -298,7 +303,7 @@ def c07_batches(seed, tier):
                         mid = (mn + mx) // 2 if mn == 0 else 0
                         r = rng.random()
                         if r < 0.25:
-                            raw = rng.choice([mn, mx, mid, mid + 1, mid - 1 if mid - 1 >= mn else mid])
+                            raw = rng.choice([mn, mx, mid, mid + 1, mid - 1 if mid - 1 >= mn else mid, mn + 1, mx - 1])
                         elif r < 0.5:
                             raw = rng.randint(mn, mx)
                         else:  # near the half-travel gate and the dead-zone edge
@@ -370,6 +375,65 @@ def c08_batches(seed, tier, cfgmode="literal"):
                         w.append({"ev": "axis", "a": a, "raw": mx if ax[a]["flip"] else mn})
                     else:
                         w.append({"ev": "axis", "a": a, "raw": (mn + mx) // 2 + (1 if mn == 0 else 0) if mn == 0 else 0})
+                if rng.random() < 0.5:
+                    w.append({"ev": "disconnect"})
+                walks.append(w)
+            batches.append({"cfg": cfg, "cfgmode": cfgmode, "sub": "", "walks": walks})
+    return batches
+
+
+def akey_mapping_batches(seed, tier, cfgmode="literal"):
+    """Emulated keys held through mapping switches: every mapping gives every axis a key-type definition
+    (same orientation), with other notes, channel offsets, dead-zones and - in some - no note on the
+    negative side; mapping / octave / channel actions are tapped while axes are deflected."""
+    rng = random.Random(seed * 389 + 17)
+    batches = []
+    n_walks, length = (10, 150) if tier == "quick" else (60, 500)
+    acts = {"KEY_F1": "octave_down", "KEY_F2": "octave_up", "KEY_F5": "channel_down", "KEY_F6": "channel_up",
+            "KEY_F11": "mapping_down", "KEY_F12": "mapping_up"}
+    info = {"ABS_HAT0X": {"min": -1, "max": 1}, "ABS_X": {"min": -128, "max": 127}, "ABS_Z": {"min": 0, "max": 255},
+            "ABS_RZ": {"min": -100, "max": 100}}
+    for nmaps in (2, 3):
+        for flip in (False, True):
+            maps = []
+            for m in range(nmaps):
+                ax = {}
+                for i, a in enumerate(sorted(info)):
+                    bidi = rng.random() < 0.6
+                    ax[a] = axis("key", note=40 + 10 * i + m, noteNeg=(90 + 10 * i + m) % 128 if bidi else 0, off=rng.randrange(16),
+                                 offNeg=rng.randrange(16) if bidi else 0, bidi=bidi, flip=flip,
+                                 dzn=0 if a == "ABS_HAT0X" else rng.choice([0, 1]), dzd=rng.choice([10, 4]))
+                maps.append({"name": "M%d" % (m + 1), "keys": {}, "axes": ax})
+            if all(not mp["axes"]["ABS_X"]["bidi"] for mp in maps):
+                maps[0]["axes"]["ABS_X"].update(bidi=True, noteNeg=99, offNeg=5)
+            cfg = base_cfg(dChan=rng.randrange(16), dMap=rng.randrange(nmaps) + 1, actions=acts, maps=maps, axinfo=info)
+            walks = []
+            for _ in range(n_walks):
+                w = []
+                axes = rng.sample(sorted(info), rng.choice([1, 2, 4]))
+                for _ in range(length):
+                    if rng.random() < 0.25:
+                        k = rng.choice(sorted(acts) + ["KEY_F11", "KEY_F12"])
+                        w += [{"ev": "press", "k": k}, {"ev": "release", "k": k}]
+                        continue
+                    a = rng.choice(axes)
+                    mn, mx = info[a]["min"], info[a]["max"]
+                    mid = (mn + mx) // 2 if mn == 0 else 0
+                    span = mx - mid
+                    r = rng.random()
+                    if r < 0.5:
+                        raw = rng.choice([mn, mx, mid])
+                    elif r < 0.7:
+                        raw = rng.randint(mn, mx)
+                    else:
+                        t = rng.choice([span // 2, span * 49 // 100])
+                        raw = max(mn, min(mx, mid + rng.choice([1, -1]) * (t + rng.randint(-2, 2))))
+                    if any(on_float_boundary(info[a], mp["axes"][a], raw) for mp in maps):
+                        continue
+                    w.append({"ev": "axis", "a": a, "raw": raw})
+                for a in axes:
+                    mn, mx = info[a]["min"], info[a]["max"]
+                    w.append({"ev": "axis", "a": a, "raw": (mn + mx) // 2 + 1 if mn == 0 else 0})
                 if rng.random() < 0.5:
                     w.append({"ev": "disconnect"})
                 walks.append(w)
